@@ -792,7 +792,7 @@ fn gen_aml(rng: &mut Rng, depth: u32, faults: bool) -> Op {
         _ => rng.below(48) as usize,
     };
     o.b = rng.bytes(nb);
-    let composite = matches!(sel, 11 | 12 | 13 | 14 | 16 | 24 | 25 | 26 | 28 | 29 | 30 | 31 | 34 | 38 | 39 | 40 | 41 | 42 | 43 | 44 | 45 | 46 | 49);
+    let composite = matches!(sel, 11 | 12 | 13 | 14 | 16 | 24 | 25 | 26 | 28 | 29 | 30 | 31 | 34 | 38 | 39 | 40 | 41 | 42 | 43 | 44 | 45 | 46 | 49 | 56);
     if composite && depth < 3 {
         let n = match rng.below(4) {
             0 => 0,
